@@ -218,6 +218,10 @@ func receiverFamilies(level string, recvs []string, thorough, extra bool) []*fam
 		add("list", one(L), one("extend"), []any{vList(), vList("X"), vTuple("X", "Y"), vRange(0, 2, 1), L, "ab", 7})
 		// repetition, both operand orders
 		counts := []any{-1, 0, 1, 2, 3, pow2(70, true)}
+		if n == 0 {
+			// an empty sequence repeated any number of times is empty, however large the count
+			counts = append(counts, pow2(31, false), pow2(40, false), pow2(70, false))
+		}
 		if n <= 3 || extra {
 			for _, t := range seqTypes {
 				x := asType(t, s)
